@@ -74,4 +74,36 @@ mod verif_search {
         } }
         println!("REPLAY-STATS c09_ksa inputs={} all-ok", n);
     }
+
+    /// apply_keystream against the textbook PRGA for calls of many lengths (0, 1, 255..257, 300, 1000, 70000 bytes) and chunkings
+    #[test]
+    fn verif_search_c09_stream() {
+        let seed = std::env::var("VERIF_SEED").ok().and_then(|s| s.parse::<u64>().ok()).unwrap_or(0) ^ 0x9E3779B97F4A7C15;
+        let mut rng = Rng(seed);
+        let lens = [0usize, 1, 2, 5, 6, 64, 255, 256, 257, 300, 511, 512, 513, 1000, 1024, 65535, 65536, 65537, 70000];
+        let mut n = 0u64;
+        for round in 0..6 { for &len in lens.iter() {
+            let key: Vec<u8> = (0..20).map(|_| rng.next() as u8).collect();
+            let mut s = textbook_ksa(&key);
+            let (mut i, mut j) = (0u8, 0u8);
+            let mut r1 = Rc4::new(&key);
+            let mut r2 = Rc4::new(&key);
+            let plain: Vec<u8> = (0..len).map(|_| rng.next() as u8).collect();
+            let mut want = plain.clone();
+            for x in want.iter_mut() {
+                i = i.wrapping_add(1); j = j.wrapping_add(s[i as usize]); s.swap(i as usize, j as usize);
+                *x ^= s[s[i as usize].wrapping_add(s[j as usize]) as usize];
+            }
+            let mut one = plain.clone(); r1.apply_keystream(&mut one);
+            let mut many = plain.clone();
+            let mut pos = 0;
+            while pos < len { let c = 1 + (rng.next() as usize % (len - pos)).min(if round % 2 == 0 { 300 } else { 7 }); r2.apply_keystream(&mut many[pos..pos + c]); pos += c; r2.apply_keystream(&mut many[pos..pos]); }
+            n += 1;
+            if one != want || many != want || r1.state != s || r2.state != s || r1.i != i || r1.j != j || r2.i != i || r2.j != j {
+                let first = one.iter().zip(want.iter()).position(|(a, b)| a != b);
+                println!("REPLAY-FAIL c09_stream len={} round={} first_diff_single_call={:?} (keystream or state differs from textbook RC4)", len, round, first); return;
+            }
+        } }
+        println!("REPLAY-STATS c09_stream inputs={} all-ok", n);
+    }
 }
